@@ -4,8 +4,8 @@ import copy
 from ..core.shrink import list_removals
 from . import gen, ir
 
-ALL_EDITS = ["var", "ver", "comment", "lit", "rtx", "default", "unrelated", "reorder", "ext", "move", "respell", "path"]
-INSIDE_EDITS = ["var", "ver", "comment", "lit", "rtx", "default"]
+ALL_EDITS = ["var", "ver", "comment", "lit", "rtx", "default", "unrelated", "reorder", "ext", "move", "respell", "path", "lzver"]
+INSIDE_EDITS = ["var", "ver", "comment", "lit", "rtx", "default", "lzver"]
 OUTSIDE_EDITS = ["unrelated", "reorder", "ext", "move", "respell"]
 
 
@@ -110,6 +110,10 @@ def gen_history(streams, tier, profile):
             if e is None and feat.get("vardefaults") and "var" in profile["edits"] and hrng.random() < 0.4:
                 e = gen.gen_edit(hrng, cur, ["var"])
                 if e["kind"] != "var":
+                    e = None
+            if e is None and feat.get("lazy") and "lzver" in profile["edits"] and hrng.random() < 0.4:
+                e = gen.gen_edit(hrng, cur, ["lzver"])
+                if e["kind"] != "lzver":
                     e = None
             if e is None:
                 e = gen.gen_edit(hrng, cur, edit_kinds)
